@@ -3,7 +3,7 @@
 #  (1) patch applies to a clean checkout; (2) repo suite passes with it (demo moved aside);
 #  (3) demo fails with it; (4) demo passes without it.
 set -u
-D="$1"; WT="$D/wt"; OUT="$D/out"; export CARGO_TARGET_DIR="$D/target"
+D="$1"; WT="$D/wt"; OUT="$D/out${2:+/$2}"; export CARGO_TARGET_DIR="$D/target"
 DEMO=$(ls "$OUT"/*.rs | head -1)
 NAME=$(basename "$DEMO" .rs)
 cd "$WT" || exit 2
